@@ -179,6 +179,10 @@ def run_recipe(ctx: Ctx, recipe: Dict[str, Any], cid: str) -> Case:
     tags = {f"kind:{kind}", f"url:{u['kind']}{'+port' if u.get('port') else ''}",
             "caller:" + ("none" if caller is None else "host" if any(k.lower() == "host" for k in caller) else "other"),
             f"len:{len(ops)}"}
+    from urllib.parse import urlparse
+
+    pu = urlparse(url)
+    lines.append(f"parse {'none' if pu.hostname is None else tok_str(pu.hostname)} {pu.port if pu.port else '-'}")
     for out in script:
         if "exc" in out:
             lines.append(f"out exc {out['exc']} {out['st'] if out.get('st') is not None else '-'}")
